@@ -281,3 +281,43 @@ func ceConstantInt64(k *types.Const) (int64, bool) {
 	}
 	return constant.Int64Val(v)
 }
+
+// ceTupleDef: v is defined exactly once, as the idx-th left-hand side of a
+// multi-value assignment from a single call; returns that call and idx.
+func ceTupleDef(f *engine.Fn, v types.Object) (*ast.CallExpr, int) {
+	if v == nil {
+		return nil, 0
+	}
+	root := f.Root()
+	info := root.Info()
+	var call *ast.CallExpr
+	idx, n := 0, 0
+	ast.Inspect(root.Body, func(x ast.Node) bool {
+		switch s := x.(type) {
+		case *ast.AssignStmt:
+			for i, l := range s.Lhs {
+				if id, ok := ast.Unparen(l).(*ast.Ident); ok && info.ObjectOf(id) == v {
+					n++
+					if len(s.Lhs) > 1 && len(s.Rhs) == 1 {
+						if c, ok := ast.Unparen(s.Rhs[0]).(*ast.CallExpr); ok {
+							call, idx = c, i
+						}
+					}
+				}
+			}
+		case *ast.IncDecStmt:
+			if id, ok := ast.Unparen(s.X).(*ast.Ident); ok && info.ObjectOf(id) == v {
+				n += 10
+			}
+		case *ast.UnaryExpr:
+			if id, ok := ast.Unparen(s.X).(*ast.Ident); ok && s.Op == token.AND && info.ObjectOf(id) == v {
+				n += 10
+			}
+		}
+		return true
+	})
+	if n != 1 {
+		return nil, 0
+	}
+	return call, idx
+}
